@@ -22,6 +22,12 @@
 (* what it shows is a result r = [k, b, h, exc, v, proj] where proj is the *)
 (* projection of every live object after the step [tree, hashed, h].       *)
 (*                                                                         *)
+(* Round 4: a copy (copy.copy / copy.deepcopy / pickle round trip) of an   *)
+(* expression is an expression of the same class with every field there    *)
+(* and equal to the original's (clause CopyKeepsFields): "any equal        *)
+(* expression can stand in for another" starts with the copy standing in   *)
+(* for its original.                                                       *)
+(*                                                                         *)
 (*   Check(S, ev, r)   S/M-layer: is observation r allowed by the property *)
 (*                     in state S?  "OK" | "SKIP" | name of failing clause *)
 (*   Post(S, ev, r)    successor state                                     *)
@@ -37,7 +43,7 @@
 EXTENDS C01_Values
 CONSTANTS HashMode,   \* "perfect" | "real" | "collide"
           Bug         \* "none" | "DropField" | "StaleHash" | "CopyKeepsHash" | "NaNIdentity"
-                      \* | "ClassMemo" | "PickleKeepsHash" | "NoIdentityPath"
+                      \* | "ClassMemo" | "PickleKeepsHash" | "NoIdentityPath" | "KwDropped"
 VARIABLES objs, dict, last, cmemo
 
 NoHash == [t |-> "None"]
@@ -180,6 +186,20 @@ ImmutableStep(S, ev, r) ==
     /\ \A k \in 1..Len(S.objs) : r.proj[k].tree = S.objs[k].tree
     /\ ev.op \in {"SetAttr", "DelAttr"} => r.k = "err"
 
+\* the same tree up to the names of the NaN objects (a pickle makes new float objects);
+\* without a NaN: == on the trees
+RECURSIVE EraseNaNs(_)
+EraseNaNs(v) ==
+    CASE v.t = "K" -> IF v.k = "nan" THEN [v EXCEPT !.id = 0] ELSE v
+      [] v.t = "T" -> [v EXCEPT !.c = [i \in 1..Len(v.c) |-> EraseNaNs(v.c[i])]]
+      [] v.t = "M" -> [v EXCEPT !.kv = [i \in 1..Len(v.kv) |-> [v.kv[i] EXCEPT !.v = EraseNaNs(v.kv[i].v)]]]
+      [] v.t = "N" -> [v EXCEPT !.f = [i \in 1..Len(v.f) |-> EraseNaNs(v.f[i])]]
+      [] OTHER -> v
+CopyEq(a, b) == IF HasNaN(a) \/ HasNaN(b) THEN EraseNaNs(a) = EraseNaNs(b) ELSE PyEq(a, b)
+\* a copy that came to be: same class, every field present and equal to the original's
+CopyKeepsFieldsStep(S, ev, r) ==
+    (ev.op = "Copy" /\ r.k = "new") => CopyEq(S.objs[ev.i].tree, r.proj[Len(r.proj)].tree)
+
 HashStableStep(S, ev, r) ==
     /\ \A k \in 1..Len(S.objs) :
           (S.objs[k].hk = 1 /\ r.proj[k].hashed = 1) => r.proj[k].h = S.objs[k].hid
@@ -191,6 +211,7 @@ Check(S, ev, r) ==
     IF ~Judgeable(S, ev, r) THEN "SKIP"
     ELSE IF ~ImmutableStep(S, ev, r) THEN "Immutable"
     ELSE IF ~HashStableStep(S, ev, r) THEN "HashStable"
+    ELSE IF ~CopyKeepsFieldsStep(S, ev, r) THEN "CopyKeepsFields"
     ELSE IF ev.op = "Hash" /\ r.k # "ok" THEN "HashRaises"
     ELSE IF ev.op \in {"Eq", "Ne"} /\ r.k # "ok" THEN "EqRaises"
     ELSE IF ev.op = "Eq" /\ Contradicts(r.b = 1, EqM(S, ev.i, ev.j)) THEN "EqIsPyEq"
@@ -211,9 +232,15 @@ HashFn(tree) ==
 \* what the generated hash of a tracked object looks at: all init args, unless the class
 \* state says "not legacy" for a class that is (Bug = "ClassMemo"): then only the
 \* dataclass fields of the decorated ancestor
+\* (Bug = "KwDropped": the generated functions take their field list from the positional
+\* constructor parameters; what is not one of them is not looked at)
+Unlooked(cls) == IF Bug = "KwDropped" THEN NonPositional(cls) ELSE {}
 EffTree(cm, t) ==
     IF IsLegacyChild(t.cls) /\ ~LegacyDecision(cm, t.cls)
-    THEN [t EXCEPT !.f = SubSeq(t.f, 1, OwnCount(t.cls))] ELSE t
+    THEN [t EXCEPT !.f = SubSeq(t.f, 1, OwnCount(t.cls))]
+    ELSE IF Unlooked(t.cls) # {}
+    THEN [t EXCEPT !.f = [k \in 1..Len(t.f) |-> IF k \in Unlooked(t.cls) THEN NoneV ELSE t.f[k]]]
+    ELSE t
 \* a hash computed in another interpreter process (other str-hash seed)
 ForeignHash(tree) == [t |-> "F", h |-> HashFn(tree)]
 \* generated <cls>_hash / Expression.__hash__: return the cached value if there is one
@@ -235,10 +262,10 @@ ImplValEq(a, b, elt) ==
            [] a.t = "K" -> IF a.k = "nan" /\ b.k = "nan" THEN elt /\ a.id = b.id ELSE PyEq(a, b)
            [] OTHER     -> PyEq(a, b)
 
-\* the number of leading fields the fieldwise comparison looks at
+\* the fields the fieldwise comparison looks at
 ComparedFields(cls) ==
     LET n == OwnCount(cls) IN
-    IF Bug = "DropField" /\ n > 0 THEN n - 1 ELSE n
+    (1..(IF Bug = "DropField" /\ n > 0 THEN n - 1 ELSE n)) \ Unlooked(cls)
 
 ImplNodeEq(a, b) ==
     IF TmplOf(a.cls) = "legacy" THEN
@@ -255,7 +282,7 @@ ImplNodeEq(a, b) ==
         ELSE IF TmplOf(a.cls) = "legacy-child" THEN
              \* init_arg_names differ from the parent's field names: is_equal over init args
              Len(a.f) = Len(b.f) /\ \A i \in 1..Len(a.f) : ImplValEq(a.f[i], b.f[i], TRUE)
-        ELSE \A i \in 1..ComparedFields(a.cls) : ImplValEq(a.f[i], b.f[i], FALSE)
+        ELSE \A i \in ComparedFields(a.cls) : ImplValEq(a.f[i], b.f[i], FALSE)
 
 \* Bug = "NoIdentityPath": o == o without the "self is other" exit - class, hash and
 \* legacy tests pass trivially, then field by field on one and the same object: a
@@ -280,7 +307,7 @@ ImplEq(S, i, j) ==
     ELSE IF Bug = "NaNIdentity" /\ a.cls = "NaN" THEN FALSE
     ELSE IF IsLegacyChild(a.cls) /\ LegacyDecision(S.cm, a.cls) THEN
          Len(a.f) = Len(b.f) /\ \A k \in 1..Len(a.f) : ImplValEq(a.f[k], b.f[k], TRUE)
-    ELSE \A k \in 1..ComparedFields(a.cls) : ImplValEq(a.f[k], b.f[k], FALSE)
+    ELSE \A k \in ComparedFields(a.cls) : ImplValEq(a.f[k], b.f[k], FALSE)
 
 \* which tracked objects get their hash cached by evaluating o_i == o_j
 \* (Python tries type(o_j).__eq__ first when type(o_j) is a proper subclass of type(o_i);
@@ -316,7 +343,7 @@ AnyNode(v, C) ==
       [] v.t = "M" -> \E i \in 1..Len(v.kv) : AnyNode(v.kv[i].v, C)
       [] OTHER -> FALSE
 \* classes no stock mapper has a handler for (nor for any of their bases)
-NoHandler == {"URoot", "UChild", "ULeg", "ULegChild", "UPlain", "UInit", "Leaf", "AlgebraicLeaf", "QuotientBase",
+NoHandler == {"URoot", "UChild", "ULeg", "ULegChild", "UPlain", "UInit", "UKw", "UInitF", "Leaf", "AlgebraicLeaf", "QuotientBase",
               "UPlain2", "ULegGrand", "ULegGrandD", "ULegChildPlain"}
 VarLike   == {"Variable", "UVar", "UTagVar", "MultiVectorVariable", "UMVTag"}
 \* fractions.Fraction is not among the constant types the mappers accept
@@ -345,6 +372,15 @@ NewNaNs(v, k) ==
 Arrived(v, k) == IF HasNaN(v) THEN NewNaNs(v, k) ELSE v
 \* the same tree up to the names of the NaN objects
 SameShape(a, b) == a = b \/ (HasNaN(a) /\ HasNaN(b) /\ NewNaNs(a, 0) = NewNaNs(b, 0))
+
+\* what a copy is made of: __getstate__ / __setstate__ carry every field (Bug = "KwDropped":
+\* only the looked-at ones; the others are not there on the copy)
+Kept(t) == IF Unlooked(t.cls) = {} THEN t
+           ELSE [t EXCEPT !.f = [k \in 1..Len(t.f) |-> IF k \in Unlooked(t.cls) THEN [t |-> "Missing"]
+                                                       ELSE t.f[k]]]
+\* the value a field(init=False) field gets when nothing in particular is going on around
+\* the constructor call (dataclasses.replace builds the new object through the constructor)
+AmbientDefault == KI(0)
 
 Predict(S, ev) ==
     LET os == S.objs IN
@@ -380,8 +416,8 @@ Predict(S, ev) ==
            LET src == os[ev.i]
                cp  == IF Bug = "CopyKeepsHash" \/ (Bug = "PickleKeepsHash" /\ ev.md = "pickle")
                       THEN [src EXCEPT !.hk = src.hashed]
-                      ELSE FreshObj(IF ev.md = "pickle" THEN Arrived(src.tree, Len(os) + 1)
-                                    ELSE src.tree)
+                      ELSE FreshObj(Kept(IF ev.md = "pickle" THEN Arrived(src.tree, Len(os) + 1)
+                                         ELSE src.tree))
            IN Res("new", 0, NoHash, "", 0, Proj(Append(os, cp)))
       [] ev.op = "Replace" ->
            LET a == os[ev.i].tree  b == os[ev.j].tree IN
@@ -390,8 +426,14 @@ Predict(S, ev) ==
            IF TmplOf(a.cls) = "legacy" \/
               (TmplOf(a.cls) = "legacy-child" /\ FieldIndex(a.cls, ev.fn) <= OwnCount(a.cls))
            THEN Res("err", 0, NoHash, "TypeError", 0, Proj(os))
+           \* replace() refuses to set a field the constructor does not take
+           ELSE IF FieldIndex(a.cls, ev.fn) \in NoInit(a.cls)
+           THEN Res("err", 0, NoHash, "ValueError", 0, Proj(os))
            ELSE LET fi == FieldIndex(a.cls, ev.fn)
-                    t  == Norm([a EXCEPT !.f[fi] = b.f[fi]])
+                    t  == Norm([a EXCEPT !.f = [k \in 1..Len(a.f) |->
+                                                  IF k = fi THEN b.f[fi]
+                                                  ELSE IF k \in NoInit(a.cls) THEN AmbientDefault
+                                                  ELSE a.f[k]]])
                     nw == IF Bug = "CopyKeepsHash"
                           THEN [os[ev.i] EXCEPT !.tree = t, !.hk = os[ev.i].hashed]
                           ELSE FreshObj(t)
@@ -497,6 +539,7 @@ HashRespectsEq  == Deviated \/ (HashRespectsEqOn(objs) /\ last.chk # "HashRespec
 DictFindsEqual  == Deviated \/ (DictKeysDistinctOn(Cur) /\ last.chk \notin {"DictFindsEqual", "DictRaises"})
 NeverStale      == Deviated \/ \A k \in 1..Len(objs) : objs[k].hashed = 1 => objs[k].hid = HashFn(objs[k].tree)
 NoSkipInModel   == last.chk # "SKIP"
+CopyFaithful    == last.chk # "CopyKeepsFields"
 \* --- action properties ---------------------------------------------------
 Immutable  == [][Deviated' \/ \A k \in 1..Len(objs) : objs'[k].tree = objs[k].tree]_<<objs, dict, last, cmemo>>
 HashStable == [][\A k \in 1..Len(objs) : objs[k].hk = 1 => objs'[k].hid = objs[k].hid]_<<objs, dict, last, cmemo>>
